@@ -64,6 +64,7 @@ type Run struct {
 	start    time.Time
 	progress *os.File
 	nviol    map[string]int
+	once     map[string]bool
 }
 
 func envInt(name string, def int64) int64 {
@@ -227,14 +228,32 @@ func (r *Run) Violation(key, what string, witness any) {
 	}
 }
 
+// ViolationOnce records a violation kind at most once per batch and does not count towards Stop():
+// used for deviations that every case exhibits (typically a listed known finding), so that they
+// neither flood the report nor end the batch before anything else was examined.
+func (r *Run) ViolationOnce(key, what string, witness any) {
+	r.mu.Lock()
+	if r.once == nil {
+		r.once = map[string]bool{}
+	}
+	seen := r.once[key]
+	r.once[key] = true
+	r.mu.Unlock()
+	if !seen {
+		r.Violation(key, what, witness)
+	}
+}
+
 // Stop reports whether the batch should end early: enough witnesses were
 // collected (a violating tree often makes every further case slow).
 func (r *Run) Stop() bool {
 	r.mu.Lock()
 	defer r.mu.Unlock()
 	n := 0
-	for _, c := range r.nviol {
-		n += c
+	for k, c := range r.nviol {
+		if !r.once[k] {
+			n += c
+		}
 	}
 	return n >= 12 || len(r.res.Inconclusive) >= 20
 }
